@@ -65,6 +65,7 @@ type Frame struct {
 	decEntry map[*ssa.BasicBlock]string
 	loopPre  map[*ssa.BasicBlock]*State
 	reachDone map[string]bool
+	assignRows map[string]string
 	parent   *Frame
 }
 
